@@ -1,0 +1,36 @@
+// Verification hooks (cargo feature `verif-hooks`); not part of the protocol.
+
+//! Canonical digest and read-only views of the [`FinalityTracker`].
+
+use std::hash::{Hash, Hasher};
+
+use super::{FinalityTracker, FinalizationStatus};
+use crate::Slot;
+
+impl FinalityTracker {
+    pub(in crate::consensus::pool) fn verif_digest<H: Hasher>(&self, h: &mut H) {
+        for (slot, status) in &self.status {
+            slot.hash(h);
+            match status {
+                FinalizationStatus::Notarized(b) => (0u8, b).hash(h),
+                FinalizationStatus::FinalPendingNotar => 1u8.hash(h),
+                FinalizationStatus::Finalized(b) => (2u8, b).hash(h),
+                FinalizationStatus::ImplicitlyFinalized(b) => (3u8, b).hash(h),
+                FinalizationStatus::ImplicitlySkipped => 4u8.hash(h),
+            }
+        }
+        for (block, parent) in &self.parents {
+            (block, parent).hash(h);
+        }
+        self.highest_finalized_slot.hash(h);
+        self.first_unpruned_slot.hash(h);
+    }
+
+    /// Slots for which a status / a parent link is retained.
+    pub(in crate::consensus::pool) fn verif_retained(&self) -> (Vec<Slot>, Vec<Slot>) {
+        (
+            self.status.keys().copied().collect(),
+            self.parents.keys().map(|(slot, _)| *slot).collect(),
+        )
+    }
+}
